@@ -514,7 +514,10 @@ type event struct {
 	SQL    string
 	NArgs  int
 	Failed string // "" = succeeded, else reason
-	InTx   bool   // connection was inside a transaction when the event was issued
+	// Scripted is set when the statement returned MySQL error 1062 as a condition of the
+	// baseline ("by-design duplicate script"), not as the injected fault.
+	Scripted bool
+	InTx     bool // connection was inside a transaction when the event was issued
 }
 
 func (e event) isStatement() bool {
@@ -566,6 +569,12 @@ type fakeDB struct {
 	scr     script
 	faultAt int
 	fault   faultKind
+	// By-design duplicate script: dupeMatch selects the statements whose duplicate-key error
+	// the adapter handles by design; the dupeOcc-th of them (sfDupeAll: every one) returns
+	// error 1062 although it is not the injected fault. dupeOcc 0 = plain script.
+	dupeMatch func(sql string) bool
+	dupeOcc   int
+	dupeSeen  int
 
 	events  []event
 	ord     int
@@ -636,9 +645,22 @@ func (c *fakeConn) step(ctx context.Context, kind, sqlText string, nargs int) er
 	f.ord++
 	ev.Ord = f.ord
 	if f.fault == fkNone || f.ord != f.faultAt {
+		if f.dupeOcc != 0 && (kind == "EXEC" || kind == "STMT_EXEC") && f.dupeMatch != nil && f.dupeMatch(ev.SQL) {
+			f.dupeSeen++
+			if f.dupeOcc == sfDupeAll || f.dupeOcc == f.dupeSeen {
+				ev.Scripted = true
+				f.record(ev)
+				f.mu.Unlock()
+				return &ms.MySQLError{Number: 1062, Message: "Duplicate entry (scripted, by design)"}
+			}
+		}
 		f.record(ev)
 		f.mu.Unlock()
 		return nil
+	}
+	if f.dupeOcc != 0 && (kind == "EXEC" || kind == "STMT_EXEC") && f.dupeMatch != nil && f.dupeMatch(ev.SQL) {
+		// The injected fault replaces the scripted duplicate at this position.
+		f.dupeSeen++
 	}
 	f.fired = true
 	switch f.fault {
@@ -1067,6 +1089,9 @@ func catalogue() []opShape {
 		return a.TopicShare([]*t.Subscription{sfSub(sfGrp, sfUid1, t.ModeCFull), sfSub(sfGrp, sfUid2, t.ModeCPublic),
 			sfSub(sfGrp, sfUid3, t.ModeCPublic)})
 	})
+	add("TopicShare", "subs2-owner-second", func(a *adapter) error {
+		return a.TopicShare([]*t.Subscription{sfSub(sfGrp, sfUid1, t.ModeCPublic), sfSub(sfGrp, sfUid2, t.ModeCFull)})
+	})
 	add("TopicShare", "subs0", func(a *adapter) error { return a.TopicShare(nil) })
 	add("TopicDelete", "hard-chan", func(a *adapter) error { return a.TopicDelete(sfGrp, true, true) })
 	add("TopicDelete", "hard-nochan", func(a *adapter) error { return a.TopicDelete(sfGrp, false, true) })
@@ -1207,10 +1232,56 @@ var skippedOps = []map[string]string{
 // transaction when MySQL reports a duplicate key (MySQL rolls back only the failed
 // statement, so continuing and committing is legitimate). A duplicate-key fault on any other
 // statement followed by COMMIT is reported as commit-after-failure.
-var dupeHandled = []struct{ op, sqlPrefix, why string }{
-	{"TopicCreateP2P", "INSERT INTO subscriptions(", "createSubscription: INSERT falls back to UPDATE of the existing row"},
-	{"TopicShare", "INSERT INTO subscriptions(", "createSubscription: INSERT falls back to UPDATE of the existing row"},
-	{"UserUpdateTags", "INSERT INTO usertags(", "addTags(ignoreDups=true): existing tag is kept"},
+//
+// The same list drives the "by-design duplicate scripts": extra baselines in which one (or
+// every) such statement returns error 1062 as a condition of the run, so that single faults
+// are also enumerated over the fallback statements that only run after a duplicate.
+// These are all the places where adapter.go continues after isDupe(err); every other
+// isDupe check translates the error to t.ErrDuplicate and returns it.
+var dupeHandled = []struct {
+	op, sqlPrefix string
+	shapeOK       func(shape string) bool // nil = every shape of the operation
+	why           string
+}{
+	{"TopicCreateP2P", "INSERT INTO subscriptions(", nil, "createSubscription: INSERT falls back to UPDATE of the existing row"},
+	{"TopicShare", "INSERT INTO subscriptions(", nil, "createSubscription: INSERT falls back to UPDATE of the existing row"},
+	// addTags ignores duplicates only when called with ignoreDups=true: UserUpdateTags without reset.
+	{"UserUpdateTags", "INSERT INTO usertags(", func(shape string) bool { return !strings.HasPrefix(shape, "reset") },
+		"addTags(ignoreDups=true): existing tag is kept"},
+}
+
+const sfDupeAll = -1
+
+// handledMatcher returns the predicate selecting the by-design-duplicate statements of a shape,
+// nil when the shape has none.
+func handledMatcher(sh *opShape) func(sql string) bool {
+	var prefixes []string
+	for _, h := range dupeHandled {
+		if h.op == sh.op && (h.shapeOK == nil || h.shapeOK(sh.shape)) {
+			prefixes = append(prefixes, h.sqlPrefix)
+		}
+	}
+	if len(prefixes) == 0 {
+		return nil
+	}
+	return func(sql string) bool {
+		for _, p := range prefixes {
+			if strings.HasPrefix(sql, p) {
+				return true
+			}
+		}
+		return false
+	}
+}
+
+func dupeLabel(shape string, occ int) string {
+	switch occ {
+	case 0:
+		return shape
+	case sfDupeAll:
+		return shape + "+dupe@all"
+	}
+	return shape + "+dupe@" + strconv.Itoa(occ)
 }
 
 // ---------------------------------------------------------------------------------------
@@ -1265,8 +1336,11 @@ func safeCall(f func() error) (err error, panicText string, inHarness bool) {
 	return f(), "", false
 }
 
-func runOnce(sc *sfSchema, sh *opShape, scr script, k int, fk faultKind, timeout time.Duration) runResult {
-	fdb := &fakeDB{schema: sc, scr: scr, faultAt: k, fault: fk}
+func runOnce(sc *sfSchema, sh *opShape, scr script, dupeOcc int, k int, fk faultKind, timeout time.Duration) runResult {
+	fdb := &fakeDB{schema: sc, scr: scr, faultAt: k, fault: fk, dupeOcc: dupeOcc}
+	if dupeOcc != 0 {
+		fdb.dupeMatch = handledMatcher(sh)
+	}
 	sqlDB := sql.OpenDB(fdb)
 	a := &adapter{db: sqlx.NewDb(sqlDB, "mysql"), dbName: "tinode", maxResults: 1024, maxMessageResults: 100}
 	if fk == fkDeadline {
@@ -1316,6 +1390,15 @@ func runOnce(sc *sfSchema, sh *opShape, scr script, k int, fk faultKind, timeout
 	return res
 }
 
+func sfCommitted(evs []event) bool {
+	for _, e := range evs {
+		if e.Kind == "COMMIT" && e.Failed == "" {
+			return true
+		}
+	}
+	return false
+}
+
 func countStatements(evs []event) int {
 	n := 0
 	for _, e := range evs {
@@ -1350,6 +1433,9 @@ func fmtStream(evs []event) string {
 		if e.Kind != "OPEN" && e.Kind != "CLOSE" && e.Kind != "RESET" && e.Kind != "STMT_CLOSE" &&
 			e.Kind != "BEGIN" && e.Kind != "COMMIT" && e.Kind != "ROLLBACK" && !e.InTx {
 			b.WriteString(" [autocommit]")
+		}
+		if e.Scripted {
+			b.WriteString(" ~dupe(by-design script)")
 		}
 		if e.Failed != "" {
 			fmt.Fprintf(&b, " !%s", e.Failed)
@@ -1468,10 +1554,8 @@ func judge(sh *opShape, fk faultKind, r runResult) []finding {
 		// Expected continuation after a duplicate key?
 		handledDupe := false
 		if fe.Failed == "dupe" {
-			for _, h := range dupeHandled {
-				if h.op == sh.op && strings.HasPrefix(fe.SQL, h.sqlPrefix) {
-					handledDupe = true
-				}
+			if m := handledMatcher(sh); m != nil && m(fe.SQL) {
+				handledDupe = true
 			}
 		}
 		committedAfter := false
@@ -1612,11 +1696,12 @@ func readChecks() []opShape {
 // ---------------------------------------------------------------------------------------
 
 type sfJob struct {
-	shape *opShape
-	scr   script
-	k     int
-	fk    faultKind
-	res   runResult
+	shape   *opShape
+	dupeOcc int // by-design duplicate script: 0 none, n = n-th handled statement, sfDupeAll
+	scr     script
+	k       int
+	fk      faultKind
+	res     runResult
 }
 
 type sfViolation struct {
@@ -1635,15 +1720,17 @@ type sfBaseline struct {
 }
 
 type sfReport struct {
-	Ops          int            `json:"ops"`
-	TxOps        int            `json:"tx_ops"`
-	SingleOps    int            `json:"single_ops"`
-	Shapes       int            `json:"shapes"`
-	Scripts      int            `json:"scripts_per_shape_max"`
-	Runs         int            `json:"runs"`
-	FaultFree    int            `json:"fault_free_runs"`
-	FaultsByKind map[string]int `json:"faults_by_kind"`
-	MaxStreamLen int            `json:"max_stream_len"`
+	Ops       int `json:"ops"`
+	TxOps     int `json:"tx_ops"`
+	SingleOps int `json:"single_ops"`
+	Shapes    int `json:"shapes"`
+	Scripts   int `json:"scripts_per_shape_max"`
+	Runs      int `json:"runs"`
+	FaultFree int `json:"fault_free_runs"`
+	// Of the fault-free runs: baselines run under a by-design duplicate script.
+	DupeBaselines int            `json:"dupe_baselines"`
+	FaultsByKind  map[string]int `json:"faults_by_kind"`
+	MaxStreamLen  int            `json:"max_stream_len"`
 	// How the deadline faults were delivered: through the statement's own context, only
 	// through the context of the enclosing transaction, or not at all (no context).
 	DeadlineVia map[string]int      `json:"deadline_delivered_via"`
@@ -1682,7 +1769,7 @@ func TestSQLFault(tt *testing.T) {
 	for _, rc := range readChecks() {
 		rc := rc
 		for _, rows := range []int{0, 1, 2} {
-			r := runOnce(sc, &rc, script{rows: rows, affected: 1}, 0, fkNone, 0)
+			r := runOnce(sc, &rc, script{rows: rows, affected: 1}, 0, 0, fkNone, 0)
 			if len(r.trouble) > 0 || r.panicText != "" {
 				tt.Errorf("column self-check %s rows=%d: trouble=%v panic=%q", rc.op, rows, r.trouble, r.panicText)
 			} else if r.err != nil && !isSentinel(r.err) && rows > 0 {
@@ -1717,6 +1804,53 @@ func TestSQLFault(tt *testing.T) {
 
 	// Phase 1: fault-free baselines, sequential.
 	var jobs []*sfJob
+	addBaseline := func(sh *opShape, scr script, dupeOcc int) (runResult, bool) {
+		label := dupeLabel(sh.shape, dupeOcc)
+		base := runOnce(sc, sh, scr, dupeOcc, 0, fkNone, 0)
+		if len(base.trouble) > 0 {
+			tt.Errorf("%s/%s [%s] fault-free: harness trouble: %v", sh.op, label, scr, base.trouble)
+			return base, false
+		}
+		if base.err != nil && !isSentinel(base.err) && !skipped[sh.op] && dupeOcc == 0 {
+			tt.Errorf("%s/%s [%s] fault-free run failed unexpectedly: %v\n  %s", sh.op, label, scr, base.err, fmtStream(base.events))
+			return base, false
+		}
+		if base.panicText != "" {
+			tt.Errorf("%s/%s [%s] fault-free run panicked: %s", sh.op, label, scr, base.panicText)
+			return base, false
+		}
+		if dupeOcc != 0 {
+			scripted := 0
+			for _, e := range base.events {
+				if e.Scripted {
+					scripted++
+				}
+			}
+			if scripted == 0 {
+				tt.Errorf("%s/%s [%s]: the scripted duplicate was not delivered\n  %s", sh.op, label, scr, fmtStream(base.events))
+				return base, false
+			}
+			rep.DupeBaselines++
+		}
+		n := countStatements(base.events)
+		if n > rep.MaxStreamLen {
+			rep.MaxStreamLen = n
+		}
+		outcome := "nil"
+		if base.err != nil {
+			outcome = base.err.Error()
+		}
+		rep.Baselines = append(rep.Baselines, sfBaseline{Op: sh.op, Shape: label, Script: scr.String(), N: n,
+			Outcome: outcome, Stream: fmtStream(base.events)})
+		jobs = append(jobs, &sfJob{shape: sh, dupeOcc: dupeOcc, scr: scr, k: 0, fk: fkNone, res: base})
+		rep.FaultFree++
+		for k := 1; k <= n; k++ {
+			for _, fk := range allFaults {
+				jobs = append(jobs, &sfJob{shape: sh, dupeOcc: dupeOcc, scr: scr, k: k, fk: fk})
+			}
+		}
+		return base, true
+	}
 	for i := range cat {
 		sh := &cat[i]
 		hasQuery := map[int64]bool{}
@@ -1727,39 +1861,28 @@ func TestSQLFault(tt *testing.T) {
 				continue
 			}
 			nScripts++
-			base := runOnce(sc, sh, scr, 0, fkNone, 0)
+			base, ok := addBaseline(sh, scr, 0)
 			for _, e := range base.events {
 				if e.Kind == "QUERY" || e.Kind == "STMT_QUERY" {
 					hasQuery[scr.affected] = true
 				}
 			}
-			if len(base.trouble) > 0 {
-				tt.Errorf("%s/%s [%s] fault-free: harness trouble: %v", sh.op, sh.shape, scr, base.trouble)
+			if !ok {
 				continue
 			}
-			if base.err != nil && !isSentinel(base.err) && !skipped[sh.op] {
-				tt.Errorf("%s/%s [%s] fault-free run failed unexpectedly: %v\n  %s", sh.op, sh.shape, scr, base.err, fmtStream(base.events))
-				continue
-			}
-			if base.panicText != "" {
-				tt.Errorf("%s/%s [%s] fault-free run panicked: %s", sh.op, sh.shape, scr, base.panicText)
-				continue
-			}
-			n := countStatements(base.events)
-			if n > rep.MaxStreamLen {
-				rep.MaxStreamLen = n
-			}
-			outcome := "nil"
-			if base.err != nil {
-				outcome = base.err.Error()
-			}
-			rep.Baselines = append(rep.Baselines, sfBaseline{Op: sh.op, Shape: sh.shape, Script: scr.String(), N: n,
-				Outcome: outcome, Stream: fmtStream(base.events)})
-			jobs = append(jobs, &sfJob{shape: sh, scr: scr, k: 0, fk: fkNone, res: base})
-			rep.FaultFree++
-			for k := 1; k <= n; k++ {
-				for _, fk := range allFaults {
-					jobs = append(jobs, &sfJob{shape: sh, scr: scr, k: k, fk: fk})
+			// By-design duplicate scripts over the handled statements of the plain stream.
+			if match := handledMatcher(sh); match != nil {
+				m := 0
+				for _, e := range base.events {
+					if (e.Kind == "EXEC" || e.Kind == "STMT_EXEC") && match(e.SQL) {
+						m++
+					}
+				}
+				for occ := 1; occ <= m; occ++ {
+					addBaseline(sh, scr, occ)
+				}
+				if m > 1 {
+					addBaseline(sh, scr, sfDupeAll)
 				}
 			}
 		}
@@ -1779,10 +1902,10 @@ func TestSQLFault(tt *testing.T) {
 		go func() {
 			defer wg.Done()
 			for j := range ch {
-				j.res = runOnce(sc, j.shape, j.scr, j.k, j.fk, sfDeadline)
+				j.res = runOnce(sc, j.shape, j.scr, j.dupeOcc, j.k, j.fk, sfDeadline)
 				if !j.res.fired && j.fk == fkDeadline {
 					// The deadline expired before statement k was reached (loaded machine): retry with a longer one.
-					j.res = runOnce(sc, j.shape, j.scr, j.k, j.fk, 20*sfDeadline)
+					j.res = runOnce(sc, j.shape, j.scr, j.dupeOcc, j.k, j.fk, 20*sfDeadline)
 				}
 			}
 		}()
@@ -1803,7 +1926,8 @@ func TestSQLFault(tt *testing.T) {
 		if j.fk != fkNone {
 			rep.FaultsByKind[j.fk.String()]++
 		}
-		id := fmt.Sprintf("%s/%s [%s] k=%d fault=%s", j.shape.op, j.shape.shape, j.scr, j.k, j.fk)
+		label := dupeLabel(j.shape.shape, j.dupeOcc)
+		id := fmt.Sprintf("%s/%s [%s] k=%d fault=%s", j.shape.op, label, j.scr, j.k, j.fk)
 		if len(j.res.trouble) > 0 {
 			tt.Errorf("%s: harness trouble: %v\n  %s", id, j.res.trouble, fmtStream(j.res.events))
 			continue
@@ -1824,8 +1948,13 @@ func TestSQLFault(tt *testing.T) {
 				}
 			}
 		}
-		for _, f := range judge(j.shape, j.fk, j.res) {
-			key := j.shape.op + "/" + j.shape.shape + "/" + f.rule
+		findings := judge(j.shape, j.fk, j.res)
+		if j.dupeOcc != 0 && j.fk == fkNone && (j.res.err != nil || !sfCommitted(j.res.events)) {
+			findings = append(findings, finding{rule: "by-design-dupe-not-committed",
+				why: "a duplicate key which the adapter is expected to handle by design did not end in COMMIT and nil"})
+		}
+		for _, f := range findings {
+			key := j.shape.op + "/" + label + "/" + f.rule
 			m := viol
 			if f.note {
 				m = notes
